@@ -1,0 +1,4 @@
+// Package simhook is the seam used by the deterministic simulation harness
+// in /verif. Without the build tag "verif" every function in this package is
+// an empty function and the shipped behaviour is unchanged.
+package simhook
